@@ -111,3 +111,189 @@ Definition check_parse (c : bytes * parse_obs) : bool :=
   | ParseErr ls, PErr ls' => list_eqb Nat.eqb ls ls'
   | _, _ => false
   end.
+
+(* ---- render cases ---- *)
+From Plush Require Import model.Value model.Eval.
+
+Inductive vdesc :=
+| DNil | DBool (b : bool) | DInt (z : Z) | DFloat (lit : bytes) | DStr (s : bytes) | DHTML (s : bytes)
+| DSlice (ety : ty) (els : list vdesc)
+| DMap (kty vty : ty) (kvs : list (vdesc * vdesc))
+| DStruct (tn : bytes) (fs : list (bytes * vdesc))
+| DPtr (v : vdesc)
+| DNilPtr (tn : bytes)
+| DGo (id : N) (cfg : list vdesc).
+
+Fixpoint build (d : vdesc) (h : heap) : value * heap :=
+  match d with
+  | DNil => (VNil, h)
+  | DBool b => (VBool b, h)
+  | DInt z => (VInt z, h)
+  | DFloat lit => (match parse_float lit with Some x => VFloat x | None => VOther 9 end, h)
+  | DStr s => (VStr s, h)
+  | DHTML s => (VHTML s, h)
+  | DSlice ety els =>
+      let '(vs, h1) := (fix go (l : list vdesc) (h : heap) : list value * heap :=
+                          match l with
+                          | [] => ([], h)
+                          | x :: r => let '(v, h1) := build x h in let '(vs, h2) := go r h1 in (v :: vs, h2)
+                          end) els h in
+      let '(h2, loc) := halloc h1 (HSlice ety vs) in (VSlice loc, h2)
+  | DMap kty vty kvs =>
+      let '(es, h1) := (fix go (l : list (vdesc * vdesc)) (h : heap) : list (value * value) * heap :=
+                          match l with
+                          | [] => ([], h)
+                          | (k, x) :: r =>
+                              let '(kv, h1) := build k h in
+                              let '(v, h2) := build x h1 in
+                              let '(vs, h3) := go r h2 in ((kv, v) :: vs, h3)
+                          end) kvs h in
+      let '(h2, loc) := halloc h1 (HMap kty vty es) in (VMap loc, h2)
+  | DStruct tn fs =>
+      let '(fvs, h1) := (fix go (l : list (bytes * vdesc)) (h : heap) : list (bytes * value) * heap :=
+                           match l with
+                           | [] => ([], h)
+                           | (n, x) :: r => let '(v, h1) := build x h in let '(vs, h2) := go r h1 in ((n, v) :: vs, h2)
+                           end) fs h in
+      (VStruct tn fvs, h1)
+  | DPtr x => let '(v, h1) := build x h in (VPtr v, h1)
+  | DNilPtr tn => (VNilPtr tn, h)
+  | DGo id cfg =>
+      let '(vs, h1) := (fix go (l : list vdesc) (h : heap) : list value * heap :=
+                          match l with
+                          | [] => ([], h)
+                          | x :: r => let '(v, h1) := build x h in let '(vs, h2) := go r h1 in (v :: vs, h2)
+                          end) cfg h in
+      (VGo id vs, h1)
+  end.
+
+Fixpoint build_bindings (bs : list (bytes * vdesc)) (h : heap) : list (bytes * value) * heap :=
+  match bs with
+  | [] => ([], h)
+  | (n, d) :: r => let '(v, h1) := build d h in let '(vs, h2) := build_bindings r h1 in ((n, v) :: vs, h2)
+  end.
+
+(* names of plush.Helpers.All() that the model implements *)
+Definition builtin_ids : list (bytes * N) :=
+  [ ([114;97;119], H_RAW); ([108;101;110], H_LEN); ([114;97;110;103;101], H_RANGE);
+    ([98;101;116;119;101;101;110], H_BETWEEN); ([117;110;116;105;108], H_UNTIL);
+    ([103;114;111;117;112;66;121], H_GROUPBY); ([116;114;117;110;99;97;116;101], H_TRUNCATE);
+    ([104;116;109;108;69;115;99;97;112;101], H_HTMLESCAPE); ([106;115;69;115;99;97;112;101], H_JSESCAPE);
+    ([116;111;74;83;79;78], H_TOJSON); ([106;115;111;110], H_TOJSON);
+    ([99;111;110;116;101;110;116;70;111;114], H_CONTENTFOR); ([99;111;110;116;101;110;116;79;102], H_CONTENTOF);
+    ([112;97;114;116;105;97;108], H_PARTIAL) ].
+Fixpoint id_of_name (n : bytes) (t : list (bytes * N)) : N :=
+  match t with [] => 0 | (k, v) :: r => if beq n k then v else id_of_name n r end.
+Definition helpers_of (names : list bytes) : list (key * value) :=
+  map (fun n => (n, VGo (id_of_name n builtin_ids) [])) names.
+
+Definition tn_T0 : bytes := [84;48].
+Definition tn_T1 : bytes := [84;49].
+
+(* signatures of the helper family (must match harness/family.go) *)
+Definition rec_sig (code : Z) : option gosig :=
+  match code with
+  | 0 => Some (mksig [] false 1 false)
+  | 1 => Some (mksig [PInt] false 1 false)
+  | 2 => Some (mksig [PStr; PInt] false 1 false)
+  | 3 => Some (mksig [PIface; PStr; PBool] false 1 false)
+  | 4 => Some (mksig [PStr; PMap] false 1 false)
+  | 5 => Some (mksig [PStr; PHCtx] false 1 false)
+  | 6 => Some (mksig [PStr; PMap; PHCtx] false 1 false)
+  | 7 => Some (mksig [PInt; PIface] true 1 false)
+  | 8 => Some (mksig [PStr] true 1 false)
+  | 9 => Some (mksig [PStr; PHCtxI] false 2 true)
+  | 10 => Some (mksig [PStr; PStr] false 1 false)
+  | 11 => Some (mksig [PStructT tn_T0] false 1 false)
+  | 12 => Some (mksig [PPtrT tn_T0] false 1 false)
+  | 13 => Some (mksig [PSliceI] false 1 false)
+  | 14 => Some (mksig [PFloat] false 1 false)
+  | 15 => Some (mksig [PHTML] false 1 false)
+  | 16 => Some (mksig [PBool] false 1 false)
+  | 17 => Some (mksig [PMap] false 1 false)
+  | 18 => Some (mksig [PStr; PStr; PStr] false 1 false)
+  | _ => None
+  end%Z.
+
+Definition family_sig (id : N) (cfg : list value) : option gosig :=
+  if id =? H_RAW then Some (mksig [PStr] false 1 false)
+  else if id =? H_LEN then Some (mksig [PIface] false 1 false)
+  else if (id =? H_RANGE) || (id =? H_BETWEEN) then Some (mksig [PInt; PInt] false 1 false)
+  else if id =? H_UNTIL then Some (mksig [PInt] false 1 false)
+  else if id =? H_GROUPBY then Some (mksig [PInt; PIface] false 2 true)
+  else if id =? H_TRUNCATE then Some (mksig [PStr; PMap] false 1 false)
+  else if id =? H_HTMLESCAPE then Some (mksig [PStr; PHCtxI] false 2 true)
+  else if id =? H_JSESCAPE then Some (mksig [PStr] false 1 false)
+  else if id =? H_TOJSON then Some (mksig [PIface] false 2 true)
+  else if id =? H_CONTENTFOR then Some (mksig [PStr; PHCtxI] false 0 false)
+  else if id =? H_CONTENTOF then Some (mksig [PStr; PMap; PHCtxI] false 2 true)
+  else if id =? H_PARTIAL then Some (mksig [PStr; PMap; PHCtx] false 2 true)
+  else if id =? H_FEEDER then Some (mksig [PStr] false 2 true)
+  else if id =? H_FAIL then Some (mksig [] false 2 true)
+  else if id =? H_COUNT then Some (mksig [] false 1 false)
+  else if id =? H_HTML then Some (mksig [PStr] false 1 false)
+  else if (id =? H_BLK) || (id =? H_BLK2) then Some (mksig [PHCtx] false 2 true)
+  else if id =? H_BLKCTX then Some (mksig [PMap; PHCtx] false 2 true)
+  else if id =? H_REC then match cfg with VInt c :: _ => rec_sig c | _ => None end
+  else if id =? H_ID then Some (mksig [PIface] false 1 false)
+  else if id =? H_METHOD_HELLO then Some (mksig [PStr] false 1 false)
+  else if id =? H_METHOD_PHELLO then Some (mksig [] false 1 false)
+  else if id =? H_METHOD_GET then Some (mksig [] false 1 false)
+  else None.
+
+Definition family_methods (tn : bytes) : list (bytes * bool * N) :=
+  if beq tn tn_T0 then [([72;101;108;108;111], false, H_METHOD_HELLO); ([80;72;101;108;108;111], true, H_METHOD_PHELLO)]
+  else if beq tn tn_T1 then [([71;101;116], false, H_METHOD_GET)]
+  else [].
+
+Inductive robs :=
+| ObsOk (out : bytes)
+| ObsErr (line : nat) (sentinel : option N)
+| ObsParseErr (lines : list nat)
+| ObsPanic.
+
+Record rcase := mkrcase {
+  rc_tmpl : bytes;
+  rc_bind : list (bytes * vdesc);
+  rc_parts : list (bytes * bytes);
+  rc_obs : robs;
+  rc_log : list (N * list bytes)
+}.
+
+Definition run_case (names : list bytes) (c : rcase) : outcome :=
+  let G := mkgenv (helpers_of names) family_sig family_methods (rc_parts c) in
+  let '(data, h) := build_bindings (rc_bind c) [] in
+  let '(s, root) := Ctx.new_root value VNil is_nil (g_helpers G) [] data [] in
+  let st := mkst s h root [] None in
+  render G (4000 + 300 * length (rc_tmpl c)) st (rc_tmpl c).
+
+Fixpoint log_eqb_aux (a : list event) (b : list (N * list bytes)) : bool :=
+  match a, b with
+  | [], [] => true
+  | EvCall id args :: a', (id', args') :: b' => (id =? id') && list_eqb beq args args' && log_eqb_aux a' b'
+  | _, _ => false
+  end.
+Definition log_eqb (a : list event) (b : list (N * list bytes)) : bool := log_eqb_aux (rev a) b.
+Definition optN_eqb (a b : option N) : bool :=
+  match a, b with Some x, Some y => x =? y | None, None => true | _, _ => false end.
+
+(* 0 = agrees, 1 = disagrees, 2 = outside the modelled fragment, 3 = out of fuel *)
+Definition check_render (names : list bytes) (c : rcase) : N :=
+  match run_case names c, rc_obs c with
+  | OOk out st, ObsOk o => if beq out o && log_eqb (slog st) (rc_log c) then 0 else 1
+  | OErr ln e st, ObsErr ln' s' =>
+      if Nat.eqb ln ln' && optN_eqb (match e with EFail s => s | EUnknown _ => None end) s' && log_eqb (slog st) (rc_log c) then 0 else 1
+  | OParseErr ls, ObsParseErr ls' => if list_eqb Nat.eqb ls ls' then 0 else 1
+  | OPanic _, ObsPanic => 0
+  | OUnsup, _ => 2
+  | OFuel, _ => 3
+  | _, _ => 1
+  end.
+
+Fixpoint classify {A} (f : A -> N) (l : list A) (i : nat) : list nat * list nat :=
+  match l with
+  | [] => ([], [])
+  | x :: r => let '(m, u) := classify f r (S i) in
+              let c := f x in
+              if c =? 0 then (m, u) else if c =? 2 then (m, i :: u) else (i :: m, u)
+  end.
